@@ -1,5 +1,5 @@
 ------------------------- MODULE Trace_Housekeeping -------------------------
-EXTENDS Housekeeping, TraceBase
+EXTENDS Housekeeping, KitStandards, TraceBase
 VARIABLE l
 Fails(e) ==
   CASE e.ev = "Resistance" ->
@@ -9,6 +9,10 @@ Fails(e) ==
     [] e.ev = "CharacterizeOrder" ->
          LET i == FirstAccepting(e.accepts) IN
          Chk("X:CharacterizeFirstInOrder", IF i = 0 THEN e.exc = "RuntimeError" ELSE e.exc = "" /\ e.chosen = i)
+    [] e.ev = "KitSignature" ->
+         LET st == Standard(e.name) IN
+         IF st = << >> THEN {"S:NoPublishedStandardForClass"}
+         ELSE Chk("X:KitSignatureMatchesStandard", e.up = st[1] /\ e.down = st[2])
     [] OTHER -> {"X:UnknownEvent"}
 Init == l = 1
 Next == /\ l <= Len(Log)
